@@ -14,3 +14,5 @@ import WsVerif.Model.SelectFixed
 import WsVerif.Props.C14
 import WsVerif.Model.History
 import WsVerif.Props.C18
+import WsVerif.Model.Frame
+import WsVerif.Props.C17
